@@ -135,6 +135,20 @@ Theorem C20_exact_law_end_to_end_partial :
          end.
 Proof. exact exact_law_end_to_end. Qed.
 
+(* (?:r|s)t = rt|st : every alternative that is a two-way non-capturing group followed by a rest t becomes the
+   two alternatives rt and st ([app_b]: show_b (app_b r t) = show_b r ++ show_b t) *)
+Theorem C20_distribute_law_end_to_end_partial :
+  forall fl a input,
+    ok_a (f_xpath fl) a = true -> f_literal fl = false -> f_ws fl = false -> (N.of_nat (length input) < umax)%N -> valid_in input ->
+    exists prog prog', compile true fl (show_a a) = Ok prog /\ compile true fl (show_a (dist_a a)) = Ok prog'
+      /\ match matches prog input 0 st0, matches prog' input 0 st0 with
+         | MTrue _, MTrue _ | MFalse _, MFalse _ => True
+         | _, _ => False
+         end.
+Proof. exact distribute_law_end_to_end. Qed.
+Theorem C20_distribute_law_text : forall t b1, show_b (app_b b1 t) = show_b b1 ++ show_b t.
+Proof. exact show_app. Qed.
+
 Print Assumptions C20_wrap_noncapturing_spec.
 Print Assumptions C20_group_to_noncapturing_spec.
 Print Assumptions C20_alt_idempotent_spec.
@@ -155,3 +169,5 @@ Print Assumptions C20_duplicate_law_end_to_end_partial.
 Print Assumptions C20_uncapture_law_end_to_end_partial.
 Print Assumptions C20_wrap_law_end_to_end_partial.
 Print Assumptions C20_exact_law_end_to_end_partial.
+Print Assumptions C20_distribute_law_end_to_end_partial.
+Print Assumptions C20_distribute_law_text.
